@@ -112,6 +112,7 @@ class _parse_stream:
                                  _in_comment=Bool(), tag_pair_buffer=Seq(LineElem()),
                                  comment_list=TraceReset(), comment_buffer=TraceReset())),
                                  '__yielded__': TraceReset()},
+                             exit_snapshot=True,
                              body_ensures=dict(one_step_of_game_splitting=_one_step_of_game_splitting))}
     note = ('lines are classified as blank / starting with % / content (no comment opener); '
             'multi-line comments are outside the domain (the statement renders none)')
@@ -126,7 +127,14 @@ class _parse_stream:
 
     # after the last line: the game in progress, if any, is delivered too
     def ensures_last_game_delivered(self, result, frame):
-        return len(result) == ite(seq_len(self.tag_pair_buffer) > 0, 1, 0)
+        at_end_of_stream = frame.__after_loop0__.self
+        return len(result) == ite(seq_len(at_end_of_stream.tag_pair_buffer) > 0, 1, 0)
+
+    # C17/C18: every file is read on its own -- once a stream is exhausted, nothing of it is
+    # carried over into the next stream read with the same parser (a file need not end with an
+    # empty line, so the last game is delivered at the end of the stream)
+    def ensures_nothing_carried_over_to_the_next_file(self):
+        return seq_len(self.tag_pair_buffer) == 0
 
 
 # ---- parse_board: tag extraction (findall over the joined lines, first occurrence wins) ----------
